@@ -195,6 +195,44 @@
     (when (not= (string ev) ref)
       (fail "lazy-drain" s (string "whole=[" ref "] one-value-per-byte=[" ev "]")))))
 
+# parser/produce without the `wrap` argument is a separate C function: it must deliver the same values as the
+# wrapped form when taken at the same moments. Values are taken after each chunk only, so that finished values
+# are queued while a later form is still open (every 1-cut; every 2-cut for n <= 10).
+(defn- plain-run [s cuts wrapped]
+  (def p (parser/new))
+  (def out @"")
+  (defn take []
+    (while (parser/has-more p)
+      (def v (if wrapped (let [t (parser/produce p true)] (if (and (tuple? t) (= 1 (length t))) (in t 0) [:not-wrapped t]))
+               (parser/produce p)))
+      (c11/vprint v out) (buffer/push out "\n"))
+    (when (= :error (parser/status p)) (buffer/push out "E " (parser/error p) "\n")))
+  (var start 0)
+  (each c [;cuts (length s)]
+    (def chunk (string/slice s start c))
+    (var i 0)
+    (while (< i (length chunk))
+      (+= i (parser/consume p chunk i))
+      (when (< i (length chunk)) (take)))      # consume stopped early: an error is latched
+    (take)
+    (set start c))
+  (parser/eof p)
+  (take)
+  (buffer/push out (parser/status p))
+  (string out))
+
+(defn check-plain-produce [s n]
+  (defn one [cuts]
+    (+= runs 2)
+    (def a (plain-run s cuts true))
+    (def b (plain-run s cuts false))
+    (when (not= a b)
+      (fail "plain-produce" s (string/format "cuts=%j wrapped produce=[%s] plain produce=[%s]" cuts a b))))
+  (one [])
+  (loop [c :range [1 n]] (one [c]))
+  (when (<= n max-all)
+    (loop [c :range [1 n] d :range [(+ c 1) n]] (one [c d]))))
+
 (def shapes @{})
 (var nstr 0)
 
@@ -208,5 +246,6 @@
   (check-chunks s n ref)
   (check-queries s n ref)
   (check-api s n ref)
+  (check-plain-produce s n)
   (check-clone s n ref))
 
